@@ -1209,13 +1209,9 @@ example : ∃ r tree, exConfig.runEdge 4 none [1, 2, 3] = .ok r ∧ r.trees = [t
       runEdge_none_tree exConfig exConfig_adj 4 [1, 2, 3] r ⟨3, 1, 700⟩ rfl hr
     exact ⟨r, tree, rfl, h6, h9, h4⟩
 
-/-- the hypothesis `c.reverse = false` of `edge_oriented_route_walk` is needed: the wrapper takes
-`e1.dst` / `e2.src` in graph orientation whatever the direction, and in a reverse search from edge
-0 to edge 2 on the same network it returns `[0, 4, 2, 2]` — the destination edge twice, and no walk
-in either orientation.  (`SearchApp::run_edge_oriented` always passes `Direction::Forward`.) -/
-example : routeEdgesOf ({ exConfig with reverse := true }.runEdge 0 (some 2) [1, 3, 0, 2]) =
-    some [[0, 4, 2, 2]] := by
-  decide +kernel
+/-! the hypothesis `c.reverse = false` of `edge_oriented_route_walk` is needed: the failing reverse
+run on this network is `C01.edge_oriented_reverse_counterexample` (Props/C01.lean).
+(`SearchApp::run_edge_oriented` always passes `Direction::Forward`.) -/
 
 /-- the frontier model is never asked about the destination (or origin) edge: with edge 2 cut
 (`valid 2 = .ok false`) the wrapper still returns the route `[0, 1, 2]` ending with edge 2.  So A1
